@@ -10,6 +10,7 @@ package main
 import (
 	"context"
 	"encoding/binary"
+	"errors"
 	"fmt"
 	"regexp"
 	"sort"
@@ -110,12 +111,24 @@ func idOf(ch *tds.Channel, pipe *vrt.Pipe, marker string) int {
 	ctx, cancel := vrt.WithTimeout(context.Background(), time.Minute)
 	defer cancel()
 	ch.QueuePackage(ctx, &tds.LanguagePackage{Cmd: strings.Repeat(marker, 1+600/len(marker))})
-	for _, s := range parseWrites(pipe.Writes()) {
+	for _, s := range parseWrites(pipe.Packets()) {
 		if strings.Contains(string(s.body), marker) {
 			return s.channel
 		}
 	}
 	return -1
+}
+
+// connReport: an error a receive call returns that is neither about the caller's context nor one of
+// the library's own sentinels for "nothing there" / "closed" - in these scenarios (well-formed
+// traffic, live transport) that can only be the connection's report about a packet it could not
+// route. The wording of the report is the library's business.
+func connReport(err error) bool {
+	if err == nil || errors.Is(err, context.Canceled) || errors.Is(err, context.DeadlineExceeded) ||
+		errors.Is(err, tds.ErrNoPackageReady) || errors.Is(err, tds.ErrChannelClosed) {
+		return false
+	}
+	return true
 }
 
 // use sends one 2-packet request on ch and reads the reply; returns what was received
@@ -131,7 +144,7 @@ func use(ch *tds.Channel, w *world, who string, wantID int) {
 	for len(got) < 6 {
 		p, err := ch.NextPackage(ctx, true)
 		if err != nil {
-			if strings.Contains(err.Error(), "invalid channel") && connErrs < 5 {
+			if connReport(err) && connErrs < 5 {
 				// a connection-wide report about somebody else's packet: not part of this channel's delivery
 				connErrs++
 				w.facts["conn-error-seen-by"] = who
@@ -156,11 +169,6 @@ out:
 	want := []string{fmt.Sprintf("RETURNSTATUS %d", 100+wantID), fmt.Sprintf("DONE 0x10 %d", wantID), "DONE 0x0 0"}
 	if strings.Join(got, "|") != strings.Join(want, "|") {
 		cls := "wrong-delivery"
-		for _, g := range got {
-			if strings.Contains(g, "invalid channel") {
-				cls = "foreign-connection-error"
-			}
-		}
 		w.bad("C12|"+cls, fmt.Sprintf("%s (channel %d) received %v, its script is %v", who, wantID, got, want))
 	}
 	w.facts[who] = "served"
@@ -169,7 +177,7 @@ out:
 func checkOutgoing(pipe *vrt.Pipe, w *world) {
 	// outgoing packets carry their channel's id with consecutive packet numbers (channels > 0)
 	next := map[int]int{}
-	for i, s := range parseWrites(pipe.Writes()) {
+	for i, s := range parseWrites(pipe.Packets()) {
 		if s.typ == 255 {
 			w.bad("C12|outgoing|short-write", fmt.Sprintf("transport write %d is shorter than a header", i))
 			continue
@@ -203,7 +211,7 @@ func body(c Case, w *world) func() {
 		}
 		_ = ch0
 		newCh := func(who string) (*tds.Channel, int) {
-			mark := len(pipe.Writes())
+			mark := len(pipe.Packets())
 			ch, err := conn.NewChannel()
 			if err != nil {
 				w.bad("C12|NewChannel-failed", fmt.Sprintf("%s: NewChannel failed although the server acknowledged the set-up: %v", who, err))
@@ -211,7 +219,7 @@ func body(c Case, w *world) func() {
 			}
 			// sequential callers: the set-up packet this call sent carries the channel's own id
 			id := -1
-			for _, s := range parseWrites(pipe.Writes()[mark:]) {
+			for _, s := range parseWrites(pipe.Packets()[mark:]) {
 				if s.typ == bufSetup {
 					id = s.channel
 				}
@@ -292,7 +300,7 @@ func body(c Case, w *world) func() {
 				sctx, scancel := vrt.WithTimeout(context.Background(), time.Second)
 				_, err := b.NextPackage(sctx, true)
 				scancel()
-				if err == nil || !strings.Contains(err.Error(), "invalid channel") {
+				if !connReport(err) {
 					w.bad("C12|late-packet-not-reported", fmt.Sprintf("a packet for the closed channel %d arrived; no connection error was reported (next receive: %v)", ida, err))
 				}
 			}
@@ -381,7 +389,7 @@ func body(c Case, w *world) func() {
 			for len(got) < 3 && connErrs < 5 {
 				p, err := b.NextPackage(ctx, true)
 				if err != nil {
-					if strings.Contains(err.Error(), "invalid channel 77") {
+					if connReport(err) {
 						connErrs++
 						continue
 					}
@@ -400,7 +408,7 @@ func body(c Case, w *world) func() {
 				sctx, scancel := vrt.WithTimeout(context.Background(), time.Second)
 				_, err := b.NextPackage(sctx, true)
 				scancel()
-				if err != nil && strings.Contains(err.Error(), "invalid channel 77") {
+				if connReport(err) {
 					connErrs++
 					continue
 				}
